@@ -118,7 +118,7 @@ def c04(tier, seed):
 @plan("C05")
 def c05(tier, seed):
     return dict(
-        jobs=w3_jobs(seed) + sched_jobs(tier, seed, gen=dict(nmax=8, mc_max=4, seq_rate=0.4))
+        jobs=w3_jobs(seed) + sched_jobs(tier, seed, gen=dict(nmax=8, mc_max=4, seq_rate=0.4), selections=True)
         + diff_jobs("C05", tier, seed, dict(flags=0.2, nest=0.3, nest_flag=0.2, share_fns=0.3, seq=0.4), 2, nj_scale=0.25, only=[]),
         level="exploration", rule=RULE_SCHED + RULE_W3 + "; 40% of the functions are is_sequential (every resource)",
         assumptions=ASSUME_COMMON, required_reach=["c05_pairs", "FENTER"], parallel=8 if tier == "quick" else 16,
